@@ -619,4 +619,6 @@ func c11Gen(tier string, rng *rand.Rand, emit func(string)) map[string]interface
 	}
 }
 
-func init() { register("C11", &Prop{Gen: c11Gen, Run: c11Run, CaseTimeout: 5 * time.Second}) }
+// 10 s: a case needs well under 1 ms of CPU (about 40 ms with the harness squeezed to 1 % of a core); the deadline only has to tell a
+// deadlock (Post to the own unbuffered handler) from a slow machine
+func init() { register("C11", &Prop{Gen: c11Gen, Run: c11Run, CaseTimeout: 10 * time.Second}) }
